@@ -8,9 +8,9 @@
 #include "v.h"
 
 enum { DGF_NONE = 0, DGF_BTYPE3, DGF_LENNLEN, DGF_HLIT, DGF_HDIST, DGF_CL_OVERSUB, DGF_LL_OVERSUB, DGF_DIST_OVERSUB, DGF_REP_NOPREV, DGF_REP_OVERRUN, DGF_NO_EOB,
-       DGF_BAD_LENSYM, DGF_BAD_DISTSYM, DGF_UNASSIGNED, DGF_FARDIST, DGF_NFAULTS };
+       DGF_BAD_LENSYM, DGF_BAD_DISTSYM, DGF_UNASSIGNED, DGF_FARDIST, DGF_NODIST_MATCH, DGF_NFAULTS };
 static const char *dgf_name[] = { "none", "btype3", "len-nlen", "hlit>29", "hdist>29", "codelen-code-oversubscribed", "litlen-oversubscribed", "dist-oversubscribed", "repeat-no-previous", "repeat-overrun", "no-eob-code",
-				  "litlen-286/287", "dist-30/31", "unassigned-code", "distance-too-far" };
+				  "litlen-286/287", "dist-30/31", "unassigned-code", "distance-too-far", "length-symbol-without-distance-codes" };
 typedef struct {
 	/* knobs */
 	size_t max_out;       /* cap on expected output */
@@ -111,6 +111,7 @@ static void dg_dynamic(defgen_t *g, vrng *r, int last, int fault)
 	int nlen = vrn(r, 30); for (int i = 0; i < nlen; i++) { int s = 257 + vrn(r, 29); if (!mark[s]) { mark[s] = 1; used[nu++] = s; } }
 	if (fault == DGF_LL_OVERSUB || fault == DGF_UNASSIGNED || fault == DGF_FARDIST) while (nu < 6) { int s = vrn(r, 200); if (!mark[s]) { mark[s] = 1; used[nu++] = s; } }
 	if (fault == DGF_FARDIST && !mark[257]) { mark[257] = 1; used[nu++] = 257; nlen = 1; }
+	if (fault == DGF_NODIST_MATCH) { while (nu < 4) { int s = vrn(r, 200); if (!mark[s]) { mark[s] = 1; used[nu++] = s; } } if (!mark[260]) { mark[260] = 1; used[nu++] = 260; } }
 	int haslen = 0; for (int i = 0; i < nu; i++) if (used[i] > 256) haslen = 1;
 	int shape = vrn(r, 3), maxd = (g->want_deep || vrn(r, 3) == 0) ? 15 : 7 + (int) vrn(r, 9); while ((1 << maxd) < nu) maxd++;
 	if (g->want_deep && nu >= 14) shape = 1;
@@ -120,6 +121,7 @@ static void dg_dynamic(defgen_t *g, vrng *r, int last, int fault)
 	int ndu = 0, dused[30]; int nd = !haslen ? (int) vrn(r, 2) : 1 + (int) vrn(r, 30); if (vrn(r, 10) == 0) nd = haslen ? 1 : 0;
 	if (fault == DGF_DIST_OVERSUB && nd < 3) nd = 5;
 	if (fault == DGF_FARDIST) nd = 30;
+	if (fault == DGF_NODIST_MATCH) nd = 0;
 	char dm[30] = { 0 }; for (int i = 0; i < nd; i++) { int s = fault == DGF_FARDIST ? i : (g->want_far && i < 4 ? 29 - i : (int) vrn(r, 30)); if (!dm[s]) { dm[s] = 1; dused[ndu++] = s; } }
 	if (ndu == 1) g->single_dist++;
 	if (ndu == 0) g->no_dist++;
@@ -171,7 +173,7 @@ static void dg_dynamic(defgen_t *g, vrng *r, int last, int fault)
 	if (fault == DGF_HLIT) { g->fault_bit = g->bits; dg_pb(g, 30 + vrn(r, 2), 5); g->fault_done = 1; } else dg_pb(g, hlit - 257, 5);
 	if (fault == DGF_HDIST) { g->fault_bit = g->bits; dg_pb(g, 30 + vrn(r, 2), 5); g->fault_done = 1; } else dg_pb(g, hdist - 1, 5);
 	dg_pb(g, hclen - 4, 4);
-	if (fault && fault != DGF_HLIT && fault != DGF_HDIST && fault != DGF_UNASSIGNED && fault != DGF_FARDIST) { g->fault_bit = g->bits; g->fault_done = 1; }
+	if (fault && fault != DGF_HLIT && fault != DGF_HDIST && fault != DGF_UNASSIGNED && fault != DGF_FARDIST && fault != DGF_NODIST_MATCH) { g->fault_bit = g->bits; g->fault_done = 1; }
 	for (int i = 0; i < hclen; i++) dg_pb(g, cll[ord[i]], 3);
 	for (int i = 0; i < nc; i++) { dg_pcode(g, clc[cs[i]], cll[cs[i]]); if (cs[i] == 16) dg_pb(g, cx[i], 2); else if (cs[i] == 17) dg_pb(g, cx[i], 3); else if (cs[i] == 18) dg_pb(g, cx[i], 7); }
 	if (g->fault_done) { /* header already broken: what follows is only filler */ for (int i = 0; i < 80; i++) dg_pb(g, vr32(r), 8); return; }
@@ -184,6 +186,13 @@ static void dg_dynamic(defgen_t *g, vrng *r, int last, int fault)
 		int lastc = -1; for (int i = 0; i < 288; i++) if (ll_hdr[i] == L && (int) lc[i] > lastc) lastc = lc[i];
 		g->fault_bit = g->bits; g->fault_done = 1; g->valid_out_before_fault = g->explen;
 		dg_pcode(g, (uint32_t) (lastc + 1), L);
+		for (int i = 0; i < 80; i++) dg_pb(g, vr32(r), 8);
+		return;
+	}
+	if (fault == DGF_NODIST_MATCH) {   /* the header is valid (no distance codes at all); a length symbol then has no distance to go with */
+		dg_tokens(g, r, ll_hdr, lc, dl_hdr, dc, 1 + ntok / 8);     /* literals only: there are no distance codes */
+		g->fault_bit = g->bits; g->fault_done = 1; g->valid_out_before_fault = g->explen;
+		dg_pcode(g, lc[260], ll_hdr[260]); dg_pb(g, 0x2d5 | vr32(r), 14);
 		for (int i = 0; i < 80; i++) dg_pb(g, vr32(r), 8);
 		return;
 	}
@@ -207,6 +216,7 @@ static size_t defgen(defgen_t *g, vrng *r, uint8_t *buf, size_t cap, uint8_t *ex
 	int fault = g->fault, want_deep = g->want_deep, want_far = g->want_far, mb = g->max_blocks ? g->max_blocks : 5;
 	memset(g, 0, sizeof *g); g->fault = fault; g->want_deep = want_deep; g->want_far = want_far; g->buf = buf; g->cap = cap; g->exp = exp; g->max_out = max_out; memset(buf, 0, cap);
 	int nblk = 1 + (int) vrn(r, mb), fault_blk = fault ? (int) vrn(r, nblk) : -1;
+	if (fault == DGF_NODIST_MATCH) { if (nblk < 2) nblk = 2; fault_blk = 1 + (int) vrn(r, nblk - 1); }   /* after at least one ordinary block */
 	for (int b = 0; b < nblk; b++) {
 		if (g->bits / 8 + 70000 > cap || g->explen + 1000 > max_out) { /* out of room: close the stream */ dg_padding_block(g, r, 1); g->nblocks++; break; }
 		int last = b == nblk - 1 && !fault, f = b == fault_blk ? fault : 0;
@@ -215,7 +225,7 @@ static size_t defgen(defgen_t *g, vrng *r, uint8_t *buf, size_t cap, uint8_t *ex
 		if (f == DGF_LENNLEN) type = 0;
 		if (f == DGF_BAD_LENSYM || f == DGF_BAD_DISTSYM) type = 1;
 		if (f >= DGF_HLIT && f <= DGF_NO_EOB) type = 2;
-		if (f == DGF_UNASSIGNED || f == DGF_FARDIST) type = 2;
+		if (f == DGF_UNASSIGNED || f == DGF_FARDIST || f == DGF_NODIST_MATCH) type = 2;
 		g->nblocks++;
 		if (type == 0) {
 			g->nstored++;
